@@ -1764,6 +1764,8 @@ theorem scopeOf_ok (kvs : List (Str × Json))
           | some v => isStrJ v
           | none => true) = true) : ∃ scope, scopeOf (d.cfg fc) kvs = .ok scope := by
   unfold scopeOf
+  split
+  · exact ⟨_, rfl⟩
   rw [idKey_eq]
   unfold lookupJ at h
   cases hl : Json.lookup (ks (if (d = Draft.d6 || d = Draft.d7) = true then "$id" else "id")) kvs with
